@@ -543,12 +543,15 @@ class SuccessionDiagram:
             `True` if this succession diagram is a subgraph of the `other`
             succession diagram.
         """
-        # Every stub node is reachable through an expanded node and
-        # thus will be checked by the following code.
-        for i in self.expanded_ids():
+        # Every node (expanded or not) must be present in the other diagram;
+        # note that a stub is not necessarily reachable through an expanded
+        # node (e.g. an unexpanded root).
+        for i in self.node_ids():
             other_i = other.find_node(self.node_data(i)["space"])
             if other_i is None:
                 return False
+            if not self.node_data(i)["expanded"]:
+                continue
             my_successors = self.node_successors(i)
             other_successors = []
             if other.node_data(other_i)["expanded"]:
